@@ -1,6 +1,7 @@
 package sim
 
 import (
+	"math/big"
 	"strconv"
 
 	mhub2types "github.com/MinterTeam/mhub2/module/x/mhub2/types"
@@ -11,7 +12,11 @@ func sdkIntOf(s string) sdk.Int {
 	if s == "nil" {
 		return sdk.Int{}
 	}
-	return sdk.NewIntFromBigInt(bigOf(s))
+	b := bigOf(s)
+	if b.BitLen() > 255 { // sdk.Int cannot carry more (and protobuf decoding rejects it)
+		return sdk.NewIntFromBigInt(new(big.Int).Sub(new(big.Int).Lsh(big.NewInt(1), 255), big.NewInt(1)))
+	}
+	return sdk.NewIntFromBigInt(b)
 }
 
 // doAdvEvent: a FULL quorum (every validator) reports the same arbitrary event that merely passes
